@@ -398,7 +398,7 @@ def main():
     else:
         nj = check.jobs
         dfs_runs = 150000 if check.thorough else 4000
-        n_random = int((1500000 if check.thorough else 40000) * check.scale)
+        n_random = int((1500000 if check.thorough else 80000) * check.scale)
         jobs = []
         for i in range(nj):
             jobs.append({'seed': check.seed * 1000003 + i, 'dfs_cfgs': DIRECTED[i::nj], 'dfs_runs': dfs_runs,
